@@ -100,7 +100,10 @@ Definition slate_variant (db : databox) (nms : list string) (fr from : Z) (n : n
 (* Dataslate.from_databox(databox, names, Span(from, from+n-1), num_variants, fallbacks, overwrites, ...) *)
 Definition from_databox (db : databox) (nms : option (list string)) (fr from : Z) (n : nat) (o : sopts) : res slate :=
   let nms' := match nms with Some l => l | None => names A db end in
-  all_ok (map (slate_variant db nms' fr from n o) (seq 0 (o_nvar o))).
+  match nms' with
+  | [] => Err 3                                  (* numpy.vstack of no rows: ValueError *)
+  | _ => all_ok (map (slate_variant db nms' fr from n o) (seq 0 (o_nvar o)))
+  end.
 
 Definition slate_cell (sl : slate) (k q t : nat) : V := nth t (nth q (nth k sl []) []) (miss A).
 
